@@ -164,7 +164,7 @@ def oracle_files(c, sc, out):
     return verdict
 
 
-def gen_scenarios(c, nref, n_spawn):
+def gen_scenarios(c, nref, n_spawn, n_lock):
     rng = c.rng
     scs = []
     n_hist, n_done, n_comp = (10, 5, 14) if c.quick else (80, 30, 210)
@@ -185,12 +185,18 @@ def gen_scenarios(c, nref, n_spawn):
         scs.append(cases.sc_compete(f"c{i:04d}", ns, delays, round(rng.choice([0.0, 0.05, 0.2, 0.5]), 2), rng.random() < 0.25, kill,
                                     latch_at=rng.choice([None, None, round(rng.uniform(0.3, 2.0), 2)]),
                                     barrier=rng.random() < 0.8))
+    # forced double launch: every scheduler passed its look-up before any of them wrote a pid file
+    if n_lock:
+        for i in range(3 if c.quick else 30):
+            scs.append(cases.sc_double(f"w{i:04d}", n_lock, rng.choice([2, 2, 3]), rng.choice([0.0, 0.1, 0.3]), rng.random() < 0.25))
     # a scheduler killed right after Popen (before / while / after the pid file is written), then others arrive
     for i in range(4 if c.quick else 40):
         scs.append(cases.sc_orphan(f"o{i:04d}", n_spawn + (i % 4), rng.choice([1, 1, 2]), round(rng.uniform(0.2, 1.0), 2),
                                    rng.choice([0.0, 0.1])))
+    fam_rank = lambda sc: 0 if sc["meta"].get("double") or sc["meta"].get("orphan") else 1  # noqa
     if not c.quick:
         rng.shuffle(scs)
+    scs.sort(key=fam_rank)
     return scs
 
 
@@ -227,16 +233,18 @@ def run(c: Check):
         ro = run_impl("drive_c05.py", dict(scenarios=[ref], base=base, workers=1), timeout=200)[0]
         if ro is None or not cases.usable(ro):
             raise InternalError("reference run did not complete: " + json.dumps(ro)[:1500])
-        k = n_spawn = nref = 0
+        k = n_spawn = nref = n_lock = 0
         for r in replay.parse_log(ro["log"]):
             if r["who"] != "P" and r["kind"] == "L" and r["rest"][0] in cases.KILLFUNCS + ["aio_submit"]:
                 k += 1
+                if not n_lock and markers and markers.get((r["rest"][0], int(r["rest"][1]))) == "LOCK":
+                    n_lock = k
                 if not n_spawn and r["rest"][0] == "aio_run" and any(x.startswith("pid=") for x in r["rest"][3:]):
                     n_spawn = k
                 if r["rest"][0] in cases.KILLFUNCS:
                     nref = k
-        c.extra["reference"] = dict(lines=nref, first_line_with_process=n_spawn)
-        scs += gen_scenarios(c, nref, n_spawn or 60)
+        c.extra["reference"] = dict(lines=nref, first_line_with_process=n_spawn, lock_line=n_lock)
+        scs += gen_scenarios(c, nref, n_spawn or 60, n_lock)
     outs = run_impl("drive_c05.py", dict(scenarios=scs, base=base, workers=6, deadline=t_budget),
                     timeout=(240 if c.quick else 1500)) if scs else []
     reg_cases, corr = [], []
